@@ -3,7 +3,7 @@
   Property theorems only; the model is HapModel/Writes.lean (the repaired `set_characteristics`),
   helper lemmas live in Proofs/Writes.lean.
 
-  Notation: `setChars true T B expired vals qs` is one `set_characteristics` request after the pid
+  Notation: `setChars true true T B expired vals qs` is one `set_characteristics` request after the pid
   block (`expired = false`: an untimed write or a timed write with a live prepare); `T` is the
   attribute database, `B` the outcome of service / accessory callbacks, every `Query` carries the
   behaviour of its characteristic (`valid` = normalisation, `cb` = its setter callback).
@@ -16,23 +16,23 @@ namespace Hap.Writes
     with status 0 was validated (`valid = some n`), the normalised value `n` is the stored value after
     the request, its own callback (if any) ran exactly once, with `n`, and did not raise, and the
     callbacks of its service and of its accessory (if any) each ran exactly once in this request,
-    did not raise, and were handed this characteristic with the written value `v`. -/
+    did not raise, and were handed this characteristic with the same normalised value `n`. -/
 theorem C10_status (T : Topo) (B : Behav) (vals : CharId → Val) (qs : List Query) (hd : Distinct qs)
     (q : Query) (hq : q ∈ qs) (r : Res)
-    (hr : (q.id, r) ∈ (setChars true T B false vals qs).chars) (h0 : r.status = OK) :
+    (hr : (q.id, r) ∈ (setChars true true T B false vals qs).chars) (h0 : r.status = OK) :
     ∃ v n, q.hasValue = true ∧ q.value = some v ∧ q.valid = some n ∧
-      (setChars true T B false vals qs).vals q.id = n ∧
+      (setChars true true T B false vals qs).vals q.id = n ∧
       q.cb ≠ CharCb.raises ∧
-      charCalls (setChars true T B false vals qs).log q.id = (if q.cb = CharCb.absent then [] else [n]) ∧
+      charCalls (setChars true true T B false vals qs).log q.id = (if q.cb = CharCb.absent then [] else [n]) ∧
       (T.svcCb q.id.aid (T.svc q.id) = true →
         B.svcRaises q.id.aid (T.svc q.id) = false ∧
-        ∃ args, svcCalls (setChars true T B false vals qs).log q.id.aid (T.svc q.id) = [args] ∧
-          (q.id, some v) ∈ args) ∧
+        ∃ args, svcCalls (setChars true true T B false vals qs).log q.id.aid (T.svc q.id) = [args] ∧
+          (q.id, some n) ∈ args) ∧
       (T.accCb q.id.aid = true →
         B.accRaises q.id.aid = false ∧
-        ∃ args g, accCalls (setChars true T B false vals qs).log q.id.aid = [args] ∧
-          (T.svc q.id, g) ∈ args ∧ (q.id, some v) ∈ g) := by
-  obtain ⟨q', hq', ha', hx⟩ := (mem_chars true T B false vals qs (q.id, r)).1 hr
+        ∃ args g, accCalls (setChars true true T B false vals qs).log q.id.aid = [args] ∧
+          (T.svc q.id, g) ∈ args ∧ (q.id, some n) ∈ g) := by
+  obtain ⟨q', hq', ha', hx⟩ := (mem_chars true true T B false vals qs (q.id, r)).1 hr
   have hid : q'.id = q.id := (congrArg Prod.fst hx).symm
   have hqq : q' = q := distinct_inj hd hq hq' hid
   subst hqq
@@ -73,13 +73,15 @@ theorem C10_status (T : Topo) (B : Behav) (vals : CharId → Val) (qs : List Que
     simp [List.mem_filter, hq, ha', hruns]
   have hdf : Distinct (qs.filter (fun q => answered false q && runs true false q)) := hd.filter _
   -- membership of the entry in the collected updates
-  have hups : (q'.id, some v) ∈ upsOf true false qs := by
+  have hupv : upValue true true false q' = some n := by
+    simp [upValue, hruns, hco, OK, hn]
+  have hups : (q'.id, some n) ∈ upsOf true true false qs := by
     simp only [upsOf, Bool.and_false, Bool.false_eq_true, if_false, List.mem_map, List.mem_filter]
-    exact ⟨q', ⟨hq, ha'⟩, by simp [qvalue, hhas, hv]⟩
-  have hacc : q'.id.aid ∈ accsOf (upsOf true false qs) := (mem_accsOf _ _).2 ⟨_, hups, rfl⟩
-  have hsvc : T.svc q'.id ∈ svcsOf T (upsOf true false qs) q'.id.aid :=
+    exact ⟨q', ⟨hq, ha'⟩, by rw [hupv]⟩
+  have hacc : q'.id.aid ∈ accsOf (upsOf true true false qs) := (mem_accsOf _ _).2 ⟨_, hups, rfl⟩
+  have hsvc : T.svc q'.id ∈ svcsOf T (upsOf true true false qs) q'.id.aid :=
     (mem_svcsOf _ _ _ _).2 ⟨_, hups, rfl, rfl⟩
-  have hgrp : (q'.id, some v) ∈ svcGroup T (upsOf true false qs) q'.id.aid (T.svc q'.id) := by
+  have hgrp : (q'.id, some n) ∈ svcGroup T (upsOf true true false qs) q'.id.aid (T.svc q'.id) := by
     simp [svcGroup, List.mem_filter, hups]
   refine ⟨v, n, hhas, hv, hn, ?_, hcb, ?_, ?_, ?_⟩
   · rw [setChars_vals]; exact storeAll_of_mem _ _ _ _ hdf hmemf hn
@@ -88,15 +90,15 @@ theorem C10_status (T : Topo) (B : Behav) (vals : CharId → Val) (qs : List Que
     unfold calledVal
     cases hc : q'.cb <;> simp_all
   · intro hcbs
-    refine ⟨?_, svcGroup T (upsOf true false qs) q'.id.aid (T.svc q'.id), ?_, hgrp⟩
+    refine ⟨?_, svcGroup T (upsOf true true false qs) q'.id.aid (T.svc q'.id), ?_, hgrp⟩
     · have : svcRes T B q'.id.aid (T.svc q'.id) = some (cbResult (B.svcRaises q'.id.aid (T.svc q'.id))) := by
         simp [svcRes, hcbs]
       rw [this] at hsv; exact cbResult_ok hsv
     · rw [setChars_log, svcCalls_append, (upperCalls_loop _ _ _).1, List.nil_append, svcCalls_pass]
       simp [hacc, hsvc, hcbs]
   · intro hcba
-    refine ⟨?_, (svcsOf T (upsOf true false qs) q'.id.aid).map (fun s => (s, svcGroup T (upsOf true false qs) q'.id.aid s)),
-      svcGroup T (upsOf true false qs) q'.id.aid (T.svc q'.id), ?_, ?_, hgrp⟩
+    refine ⟨?_, (svcsOf T (upsOf true true false qs) q'.id.aid).map (fun s => (s, svcGroup T (upsOf true true false qs) q'.id.aid s)),
+      svcGroup T (upsOf true true false qs) q'.id.aid (T.svc q'.id), ?_, ?_, hgrp⟩
     · have : accRes T B q'.id.aid = some (cbResult (B.accRaises q'.id.aid)) := by
         simp [accRes, hcba]
       rw [this] at hac; exact cbResult_ok hac
@@ -115,18 +117,18 @@ theorem C10_independent (T : Topo) (B B' : Behav) (expired : Bool) (vals vals' :
     (hq : q ∈ qs) (hq' : q ∈ qs') (hv : vals q.id = vals' q.id)
     (hBs : B.svcRaises q.id.aid (T.svc q.id) = B'.svcRaises q.id.aid (T.svc q.id))
     (hBa : B.accRaises q.id.aid = B'.accRaises q.id.aid) :
-    (∀ r, (q.id, r) ∈ (setChars true T B expired vals qs).chars ↔
-          (q.id, r) ∈ (setChars true T B' expired vals' qs').chars) ∧
-    (setChars true T B expired vals qs).vals q.id = (setChars true T B' expired vals' qs').vals q.id ∧
-    charCalls (setChars true T B expired vals qs).log q.id =
-      charCalls (setChars true T B' expired vals' qs').log q.id ∧
+    (∀ r, (q.id, r) ∈ (setChars true true T B expired vals qs).chars ↔
+          (q.id, r) ∈ (setChars true true T B' expired vals' qs').chars) ∧
+    (setChars true true T B expired vals qs).vals q.id = (setChars true true T B' expired vals' qs').vals q.id ∧
+    charCalls (setChars true true T B expired vals qs).log q.id =
+      charCalls (setChars true true T B' expired vals' qs').log q.id ∧
     (expired = false → q.hasValue = true →
-      (svcCalls (setChars true T B expired vals qs).log q.id.aid (T.svc q.id)).length =
-        (svcCalls (setChars true T B' expired vals' qs').log q.id.aid (T.svc q.id)).length ∧
-      (accCalls (setChars true T B expired vals qs).log q.id.aid).length =
-        (accCalls (setChars true T B' expired vals' qs').log q.id.aid).length) := by
-  obtain ⟨h1, h2, h3⟩ := entry_closed_form T B expired vals qs hd q hq
-  obtain ⟨h1', h2', h3'⟩ := entry_closed_form T B' expired vals' qs' hd' q hq'
+      (svcCalls (setChars true true T B expired vals qs).log q.id.aid (T.svc q.id)).length =
+        (svcCalls (setChars true true T B' expired vals' qs').log q.id.aid (T.svc q.id)).length ∧
+      (accCalls (setChars true true T B expired vals qs).log q.id.aid).length =
+        (accCalls (setChars true true T B' expired vals' qs').log q.id.aid).length) := by
+  obtain ⟨h1, h2, h3⟩ := entry_closed_form true T B expired vals qs hd q hq
+  obtain ⟨h1', h2', h3'⟩ := entry_closed_form true T B' expired vals' qs' hd' q hq'
   have hres : entryRes true expired T B q = entryRes true expired T B' q := by
     simp [entryRes, override, svcRes, accRes, hBs, hBa]
   refine ⟨?_, ?_, ?_, ?_⟩
@@ -135,8 +137,8 @@ theorem C10_independent (T : Topo) (B B' : Behav) (expired : Bool) (vals vals' :
   · rw [h3, h3']
   · intro he hval
     subst he
-    obtain ⟨a1, a2, _, _⟩ := upper_calls T B vals qs q hq hval
-    obtain ⟨b1, b2, _, _⟩ := upper_calls T B' vals' qs' q hq' hval
+    obtain ⟨a1, a2, _, _⟩ := upper_calls true T B vals qs q hq hval
+    obtain ⟨b1, b2, _, _⟩ := upper_calls true T B' vals' qs' q hq' hval
     rw [a1, a2, b1, b2]
     constructor
     · by_cases h : T.svcCb q.id.aid (T.svc q.id) = true <;> simp [h]
@@ -147,16 +149,16 @@ theorem C10_independent (T : Topo) (B B' : Behav) (expired : Bool) (vals vals' :
     them a write-response value is due (requested with "r", setter ran, callback returned a value);
     otherwise it answers 207 with one entry per answered query. -/
 theorem C10_204 (T : Topo) (B : Behav) (expired : Bool) (vals : CharId → Val) (qs : List Query) :
-    (httpOfWrite (setChars true T B expired vals qs) = 204 ↔
+    (httpOfWrite (setChars true true T B expired vals qs) = 204 ↔
       ∀ q ∈ qs, answered expired q = true →
         (entryRes true expired T B q).status = OK ∧ ¬ WrDue true expired q) ∧
-    (httpOfWrite (setChars true T B expired vals qs) = 204 ↔
-      (setChars true T B expired vals qs).body = none) ∧
-    (httpOfWrite (setChars true T B expired vals qs) ≠ 204 →
-      httpOfWrite (setChars true T B expired vals qs) = 207 ∧
-      (setChars true T B expired vals qs).body = some (setChars true T B expired vals qs).chars) := by
-  have hb := setChars_body true T B expired vals qs
-  have hne : nonempty (setChars true T B expired vals qs).chars = false ↔
+    (httpOfWrite (setChars true true T B expired vals qs) = 204 ↔
+      (setChars true true T B expired vals qs).body = none) ∧
+    (httpOfWrite (setChars true true T B expired vals qs) ≠ 204 →
+      httpOfWrite (setChars true true T B expired vals qs) = 207 ∧
+      (setChars true true T B expired vals qs).body = some (setChars true true T B expired vals qs).chars) := by
+  have hb := setChars_body true true T B expired vals qs
+  have hne : nonempty (setChars true true T B expired vals qs).chars = false ↔
       ∀ q ∈ qs, answered expired q = true →
         (entryRes true expired T B q).status = OK ∧ ¬ WrDue true expired q := by
     unfold nonempty
@@ -177,12 +179,12 @@ theorem C10_204 (T : Topo) (B : Behav) (expired : Bool) (vals : CharId → Val) 
   · rw [← hne]
     unfold httpOfWrite
     rw [hb]
-    cases nonempty (setChars true T B expired vals qs).chars <;> simp
+    cases nonempty (setChars true true T B expired vals qs).chars <;> simp
   · unfold httpOfWrite
-    cases (setChars true T B expired vals qs).body <;> simp
+    cases (setChars true true T B expired vals qs).body <;> simp
   · unfold httpOfWrite
     rw [hb]
-    cases nonempty (setChars true T B expired vals qs).chars <;> simp
+    cases nonempty (setChars true true T B expired vals qs).chars <;> simp
 
 /-- **Timed writes need a live prepare**, over all histories. After any history `hrev` (most recent
     first) of prepare / advance / write / lose operations on any connections and pids, starting
@@ -195,10 +197,10 @@ theorem C10_204 (T : Topo) (B : Behav) (expired : Bool) (vals : CharId → Val) 
         the request — and nothing else — is answered INVALID_VALUE_IN_REQUEST (−70410), as a 207. -/
 theorem C10_timed (T : Topo) (s0 : State) (h0 : ∀ c p, s0.prep c p = none) (hrev : List Op)
     (c : Conn) (p : Pid) (b : Batch) (hp : b.pid = some p) :
-    let s := runRev true T s0 hrev
-    let live := ∃ e, LivePrep true T s0 hrev c p e ∧ s.now ≤ e
-    let r := write true T s c b
-    (live → r.2 = (setChars true T b.behav false s.vals b.queries)) ∧
+    let s := runRev true true T s0 hrev
+    let live := ∃ e, LivePrep true true T s0 hrev c p e ∧ s.now ≤ e
+    let r := write true true T s c b
+    (live → r.2 = (setChars true true T b.behav false s.vals b.queries)) ∧
     (r.1.prep c p = none ∧ ∀ c' p', ¬ (c' = c ∧ p' = p) → r.1.prep c' p' = s.prep c' p') ∧
     (¬ live →
       r.1.vals = s.vals ∧ r.2.log = [] ∧
@@ -211,14 +213,14 @@ theorem C10_timed (T : Topo) (s0 : State) (h0 : ∀ c p, s0.prep c p = none) (hr
     | none =>
       simp only [Bool.true_eq_false, false_iff]
       rintro ⟨e, hl, _⟩
-      have := (prep_iff_live true T s0 h0 hrev c p e).2 hl
+      have := (prep_iff_live true true T s0 h0 hrev c p e).2 hl
       rw [hpre] at this; cases this
     | some e =>
       simp only [decide_eq_false_iff_not, Nat.not_lt]
       constructor
-      · intro hle; exact ⟨e, (prep_iff_live true T s0 h0 hrev c p e).1 hpre, hle⟩
+      · intro hle; exact ⟨e, (prep_iff_live true true T s0 h0 hrev c p e).1 hpre, hle⟩
       · rintro ⟨e', hl, hle⟩
-        have := (prep_iff_live true T s0 h0 hrev c p e').2 hl
+        have := (prep_iff_live true true T s0 h0 hrev c p e').2 hl
         rw [hpre] at this; cases this; exact hle
   refine ⟨?_, ?_, ?_⟩
   · intro hl
@@ -233,8 +235,8 @@ theorem C10_timed (T : Topo) (s0 : State) (h0 : ∀ c p, s0.prep c p = none) (hr
       cases h : (popPid s c b.pid).1 with
       | true => rfl
       | false => exact absurd (hexp.1 h) hnl
-    obtain ⟨f1, f2, f3⟩ := expired_facts T b.behav s.vals b.queries
-    have hr2 : r.2 = setChars true T b.behav true s.vals b.queries := by simp only [r, write, hx]
+    obtain ⟨f1, f2, f3⟩ := expired_facts true T b.behav s.vals b.queries
+    have hr2 : r.2 = setChars true true T b.behav true s.vals b.queries := by simp only [r, write, hx]
     refine ⟨?_, ?_, ?_, ?_⟩
     · simp only [r, write, hx]; exact f1
     · rw [hr2]; exact f2
@@ -242,7 +244,7 @@ theorem C10_timed (T : Topo) (s0 : State) (h0 : ∀ c p, s0.prep c p = none) (hr
     · intro hne
       rw [hr2]
       have h204 := C10_204 T b.behav true s.vals b.queries
-      have : httpOfWrite (setChars true T b.behav true s.vals b.queries) ≠ 204 := by
+      have : httpOfWrite (setChars true true T b.behav true s.vals b.queries) ≠ 204 := by
         intro h
         cases hq : b.queries with
         | nil => exact hne hq
@@ -256,7 +258,7 @@ theorem C10_timed (T : Topo) (s0 : State) (h0 : ∀ c p, s0.prep c p = none) (hr
 theorem C10_timed_once (T : Topo) (s0 : State)
     (later earlier : List Op) (c : Conn) (p : Pid) (b1 : Batch) (hp1 : b1.pid = some p)
     (hno : ∀ op ∈ later, ∀ ttl, op ≠ Op.prepare c (some ttl) (some p)) :
-    ¬ ∃ e, LivePrep true T s0 (later ++ Op.write c b1 :: earlier) c p e := by
+    ¬ ∃ e, LivePrep true true T s0 (later ++ Op.write c b1 :: earlier) c p e := by
   rintro ⟨e, hl⟩
   induction later generalizing e with
   | nil =>
@@ -275,7 +277,7 @@ theorem C10_timed_once (T : Topo) (s0 : State)
     ids), `c` holds no live prepare for `p`, so by `C10_timed` its write carrying `p` is refused. -/
 theorem C10_timed_needs_own_prepare (T : Topo) (s0 : State) (hrev : List Op) (c : Conn) (p : Pid)
     (hno : ∀ op ∈ hrev, ∀ ttl, op ≠ Op.prepare c (some ttl) (some p)) :
-    ¬ ∃ e, LivePrep true T s0 hrev c p e := by
+    ¬ ∃ e, LivePrep true true T s0 hrev c p e := by
   rintro ⟨e, later, earlier, ttl, heq, _, _⟩
   exact hno (Op.prepare c (some ttl) (some p)) (by rw [heq]; simp) ttl rfl
 
@@ -300,54 +302,13 @@ theorem C10_prepare (s : State) (c : Conn) (ttl : Option Nat) (pid : Option Pid)
     · cases pid <;> exact ⟨rfl, rfl, rfl⟩
     · cases ttl <;> exact ⟨rfl, rfl, rfl⟩
 
-/-! ### the reading "service and accessory callbacks are handed the normalised value" -/
-
-/-- If the request value is already normal (the common case: an in-range value of the right type)
-    all three levels are handed exactly the stored value. -/
-theorem C10_status_partial (T : Topo) (B : Behav) (vals : CharId → Val) (qs : List Query) (hd : Distinct qs)
-    (q : Query) (hq : q ∈ qs) (r : Res)
-    (hr : (q.id, r) ∈ (setChars true T B false vals qs).chars) (h0 : r.status = OK)
-    (hnorm : q.value = q.valid) :
-    ∃ n, q.valid = some n ∧ (setChars true T B false vals qs).vals q.id = n ∧
-      (T.svcCb q.id.aid (T.svc q.id) = true →
-        ∃ args, svcCalls (setChars true T B false vals qs).log q.id.aid (T.svc q.id) = [args] ∧
-          (q.id, some n) ∈ args) ∧
-      (T.accCb q.id.aid = true →
-        ∃ args g, accCalls (setChars true T B false vals qs).log q.id.aid = [args] ∧
-          (T.svc q.id, g) ∈ args ∧ (q.id, some n) ∈ g) := by
-  obtain ⟨v, n, _, hv, hn, hst, _, _, hs, ha⟩ := C10_status T B vals qs hd q hq r hr h0
-  have : v = n := by rw [hv, hn] at hnorm; exact Option.some.inj hnorm
-  subst this
-  exact ⟨v, hn, hst, fun h => (hs h).2, fun h => (ha h).2⟩
-
-/-- The strict reading of "ran once with it": a status-0 entry's service callback is handed the
-    *normalised* value. The code hands it the request value (`updates[acc][service][char] = value`),
-    so this fails whenever normalisation changes the value (clamping, step rounding, `int()`,
-    `bool()`, `str()`); see `C10_status_strict_counterexample`. What is proved instead: `C10_status`
-    (request value at the upper levels) and `C10_status_partial` (strict for already-normal values). -/
-def C10_status_strict : Prop :=
-  ∀ (T : Topo) (B : Behav) (vals : CharId → Val) (qs : List Query), Distinct qs →
-    ∀ q ∈ qs, ∀ r, (q.id, r) ∈ (setChars true T B false vals qs).chars → r.status = OK →
-      ∀ n, q.valid = some n → T.svcCb q.id.aid (T.svc q.id) = true →
-        ∃ args, svcCalls (setChars true T B false vals qs).log q.id.aid (T.svc q.id) = [args] ∧
-          (q.id, some n) ∈ args
+/-! ### fixtures for the counterexamples and examples -/
 
 def demoT : Topo := { svc := fun _ => 1, svcCb := fun _ _ => true, accCb := fun _ => true }
 def demoB : Behav := { svcRaises := fun _ _ => false, accRaises := fun _ => false }
 /-- Brightness := 150 on a 0..100 characteristic: accepted, stored as 100 -/
 def q150 : Query :=
   { id := ⟨2, 10⟩, hasValue := true, value := some "i:150", wr := false, valid := some "i:100", cb := .returns none }
-
-theorem C10_status_strict_counterexample : ¬ C10_status_strict := by
-  intro h
-  obtain ⟨args, h1, h2⟩ := h demoT demoB (fun _ => "i:0") [q150] (by unfold Distinct; decide) q150 (List.mem_cons_self ..)
-    ⟨0, none⟩ (by decide) rfl "i:100" rfl rfl
-  have : svcCalls (setChars true demoT demoB false (fun _ => "i:0") [q150]).log 2 1
-      = [[((⟨2, 10⟩ : CharId), some "i:150")]] := by decide
-  rw [show q150.id.aid = 2 from rfl, show demoT.svc q150.id = 1 from rfl, this] at h1
-  have := (List.cons.inj h1).1
-  subst this
-  revert h2; decide
 
 /-! ### the code before the repair -/
 
@@ -358,12 +319,25 @@ def st0 : State := { now := 1000, prep := fun _ _ => none, vals := fun _ => "i:0
     value is stored, all three callbacks run, and the answer is 204. The repaired model refuses it.
     Replayed on the implementation by the harness (`C10:timed-write-without-live-prepare`). -/
 theorem C10_legacy_counterexample :
-    ((write false demoT st0 0 batch7).1.vals ⟨2, 10⟩ = "i:100" ∧
-      (write false demoT st0 0 batch7).2.log.length = 3 ∧
-      httpOfWrite (write false demoT st0 0 batch7).2 = 204) ∧
-    ((write true demoT st0 0 batch7).1.vals ⟨2, 10⟩ = "i:0" ∧
-      (write true demoT st0 0 batch7).2.log = [] ∧
-      httpOfWrite (write true demoT st0 0 batch7).2 = 207) := by decide
+    ((write false false demoT st0 0 batch7).1.vals ⟨2, 10⟩ = "i:100" ∧
+      (write false false demoT st0 0 batch7).2.log.length = 3 ∧
+      httpOfWrite (write false false demoT st0 0 batch7).2 = 204) ∧
+    ((write true true demoT st0 0 batch7).1.vals ⟨2, 10⟩ = "i:0" ∧
+      (write true true demoT st0 0 batch7).2.log = [] ∧
+      httpOfWrite (write true true demoT st0 0 batch7).2 = 207) := by decide
+
+/-- Before design/fixes/C10b.patch (`nu := false`) the service and accessory callbacks of a
+    successful write were handed the request value: Brightness := 150 is answered 0 and stored as 100,
+    the characteristic callback gets 100, the service callback gets 150. With the repair it gets 100.
+    Replayed on the implementation by the harness (`C10:upper-callback-got-request-value`). -/
+theorem C10_upper_value_legacy_counterexample :
+    ((setChars true false demoT demoB false (fun _ => "i:0") [q150]).chars = [(⟨2, 10⟩, ⟨0, none⟩)] ∧
+      (setChars true false demoT demoB false (fun _ => "i:0") [q150]).vals ⟨2, 10⟩ = "i:100" ∧
+      charCalls (setChars true false demoT demoB false (fun _ => "i:0") [q150]).log ⟨2, 10⟩ = ["i:100"] ∧
+      svcCalls (setChars true false demoT demoB false (fun _ => "i:0") [q150]).log 2 1
+        = [[((⟨2, 10⟩ : CharId), some "i:150")]]) ∧
+    svcCalls (setChars true true demoT demoB false (fun _ => "i:0") [q150]).log 2 1
+        = [[((⟨2, 10⟩ : CharId), some "i:100")]] := by decide
 
 /-! ### non-vacuity: concrete instances of the hypotheses -/
 
@@ -375,23 +349,23 @@ def qRaise : Query := { id := ⟨4, 10⟩, hasValue := true, value := some "i:1"
 def qResp : Query := { id := ⟨4, 14⟩, hasValue := true, value := some "i:0", wr := true, valid := some "i:0", cb := .returns (some "s:r") }
 
 example : Distinct [qOk, qBad, qRaise, qResp] := by unfold Distinct; decide
-example : (setChars true demoT demoB false (fun _ => "i:0") [qOk, qBad, qRaise, qResp]).chars =
+example : (setChars true true demoT demoB false (fun _ => "i:0") [qOk, qBad, qRaise, qResp]).chars =
     [(⟨2, 9⟩, ⟨0, none⟩), (⟨3, 10⟩, ⟨-70402, none⟩), (⟨4, 10⟩, ⟨-70402, none⟩), (⟨4, 14⟩, ⟨0, some "s:r"⟩)] := by
   decide
-example : httpOfWrite (setChars true demoT demoB false (fun _ => "i:0") [qOk, qBad, qRaise, qResp]) = 207 := by decide
-example : httpOfWrite (setChars true demoT demoB false (fun _ => "i:0") [qOk]) = 204 := by decide
+example : httpOfWrite (setChars true true demoT demoB false (fun _ => "i:0") [qOk, qBad, qRaise, qResp]) = 207 := by decide
+example : httpOfWrite (setChars true true demoT demoB false (fun _ => "i:0") [qOk]) = 204 := by decide
 /-- hypotheses of `C10_status` are met by `qOk` in the mixed batch -/
 example : ((qOk.id, (⟨0, none⟩ : Res)) ∈
-    (setChars true demoT demoB false (fun _ => "i:0") [qOk, qBad, qRaise, qResp]).chars) := by decide
+    (setChars true true demoT demoB false (fun _ => "i:0") [qOk, qBad, qRaise, qResp]).chars) := by decide
 /-- a live prepare exists after `prepare; advance 250` and is still usable at now = expiry -/
-example : LivePrep true demoT st0 [Op.advance 250, Op.prepare 0 (some 250) (some 7)] 0 7 1250 :=
+example : LivePrep true true demoT st0 [Op.advance 250, Op.prepare 0 (some 250) (some 7)] 0 7 1250 :=
   ⟨[Op.advance 250], [], 250, rfl, by intro op h; simp at h; subst h; simp [Touches], rfl⟩
-example : (runRev true demoT st0 [Op.advance 250, Op.prepare 0 (some 250) (some 7)]).now = 1250 := by decide
-example : (popPid (runRev true demoT st0 [Op.advance 250, Op.prepare 0 (some 250) (some 7)]) 0 (some 7)).1 = false := by
+example : (runRev true true demoT st0 [Op.advance 250, Op.prepare 0 (some 250) (some 7)]).now = 1250 := by decide
+example : (popPid (runRev true true demoT st0 [Op.advance 250, Op.prepare 0 (some 250) (some 7)]) 0 (some 7)).1 = false := by
   decide
-example : (popPid (runRev true demoT st0 [Op.advance 375, Op.prepare 0 (some 250) (some 7)]) 0 (some 7)).1 = true := by
+example : (popPid (runRev true true demoT st0 [Op.advance 375, Op.prepare 0 (some 250) (some 7)]) 0 (some 7)).1 = true := by
   decide
 /-- another connection's prepare does not count -/
-example : (popPid (runRev true demoT st0 [Op.prepare 1 (some 250) (some 7)]) 0 (some 7)).1 = true := by decide
+example : (popPid (runRev true true demoT st0 [Op.prepare 1 (some 250) (some 7)]) 0 (some 7)).1 = true := by decide
 
 end Hap.Writes
